@@ -1,6 +1,7 @@
 import Secp.Gen.Formulas
 import Secp.Proofs.AbsSound
 import Secp.Proofs.Slices
+import Secp.Proofs.SliceSound
 /-
   Props/C16 — no input makes point or signature arithmetic wrap or compare denormalised.
 
@@ -187,6 +188,28 @@ theorem absS_plain (cs : List Contract) : ∀ (items : List PItem) (σ : AState)
     · exact absS_plain cs rest σ st
     · rfl
   | .call _ _ :: _, _, _ => by simp [absS, absPath]
+
+
+/-- MONOTONICITY of the sliced interpreter in the covering order: a marker-free program accepted from σ2 is
+    accepted from every state that σ2 covers (smaller magnitudes, more registers normalised) and ends covered by
+    the original result.  This is what makes a loop head state and a call contract sound summaries. -/
+theorem absS_mono (cs : List Contract) (items : List SItem) (hf : ∀ it ∈ items, Secp.Proofs.SliceSound.flat it = true)
+    (σ1 σ2 σ2' : AState) (hc : Secp.Proofs.SliceSound.Cover σ1 σ2) (h : absS cs items σ2 [] = some σ2') :
+    ∃ σ1', absS cs items σ1 [] = some σ1' ∧ Secp.Proofs.SliceSound.Cover σ1' σ2' :=
+  Secp.Proofs.SliceSound.absS_mono cs items hf σ1 σ2 σ2' hc h
+
+/-- LOOP UNROLLING: if `pre; loopBegin; b; loopEnd; post` is accepted for every body path b of a loop, then EVERY
+    concrete unrolling `pre; b1; …; bn; post` (any n ≥ 0, bodies in any order, repetitions allowed) is accepted by the
+    marker-free interpreter (to which `absS_plain` / `absPath_sound` apply), with a final state covered by the
+    analysed one.  So one symbolic iteration per loop — what T2s extracts from ScalarMultNonConst and
+    ScalarBaseMultNonConst — decides all iteration counts. -/
+theorem loop_unroll (cs : List Contract) (pre post : List SItem) (bodies : List (List SItem))
+    (hpre : ∀ it ∈ pre, Secp.Proofs.SliceSound.flat it = true) (hpost : ∀ it ∈ post, Secp.Proofs.SliceSound.flat it = true)
+    (hb : ∀ b ∈ bodies, ∀ it ∈ b, Secp.Proofs.SliceSound.flat it = true) (σ σf : AState) (hne : bodies ≠ [])
+    (hacc : ∀ b ∈ bodies, absS cs (pre ++ [SItem.loopBegin] ++ b ++ [SItem.loopEnd] ++ post) σ [] = some σf)
+    (trace : List (List SItem)) (htr : ∀ b ∈ trace, b ∈ bodies) :
+    ∃ σ', absS cs (pre ++ trace.flatten ++ post) σ [] = some σ' ∧ Secp.Proofs.SliceSound.Cover σ' σf :=
+  Secp.Proofs.SliceSound.loop_unroll cs pre post bodies hpre hpost hb σ σf hne hacc trace htr
 
 /-- non-vacuity of the sliced interpreter: Verify's step 8 without Normalize is rejected, with it accepted;
     a loop whose body raises the magnitude is rejected -/
